@@ -108,7 +108,7 @@ CACHES = ["dict_from_hs_to_choi", "dict_from_choi_to_hs", "basis_T_sparse", "bas
           "basisconjugate_basis_sparse", "basis_basisconjugate_T_sparse", "basis_basisconjugate_T_sparse_from_1",
           "basishermitian_basis_T_from_1"]
 CHEAP_CACHES = ["basis_T_sparse", "basisconjugate_sparse"]
-HOOK_BUDGET = 400  # digest-based hook evaluations per step (estimation inner loops would otherwise dominate the cost)
+HOOK_BUDGET = 200  # digest-based hook evaluations per step (estimation inner loops would otherwise dominate the cost)
 
 
 def shards(tier, seed):
@@ -140,7 +140,12 @@ QKW = ("is_physicality_required", "is_estimation_object", "on_para_eq_constraint
 def qop_spec(obj):
     """value snapshot of a State / Povm / Gate / MProcess read through public attributes"""
     t = type(obj).__name__
-    sp = {"t": t, "names": names_of(obj.composite_system), "kw": {k: getattr(obj, k) for k in QKW}}
+    cs = obj.composite_system
+    # operands that share one CompositeSystem INSTANCE in the pool share one in the twin, and operands on distinct (if
+    # equal) instances get distinct ones: quara compares composite systems by identity in places, and differences of
+    # Python-level identity are not what the property is about
+    cid = 0 if _PRIMARY.get(id(cs)) is cs else id(cs)
+    sp = {"t": t, "names": names_of(cs), "cid": cid, "kw": {k: getattr(obj, k) for k in QKW}}
     if t == "State":
         sp["raw"] = np.array(obj.vec, copy=True)
     elif t == "Povm":
@@ -161,7 +166,7 @@ def qop_spec(obj):
 def qop_build(sp, world):
     """brand-new object with the recorded value in `world`"""
     Q = world.Q
-    c = world.csys(sp["names"])
+    c = world.csys(sp["names"], sp.get("cid", 0))
     t = sp["t"]
     kw = dict(sp["kw"])
     if t == "State":
@@ -190,7 +195,8 @@ class Leafs:
         self.items.append(("x", v))
 
     def num(self, a):
-        self.items.append(("n", np.array(a, copy=True)))
+        a = np.asarray(a)
+        self.items.append(("n", np.array(a, dtype=np.complex128 if np.iscomplexobj(a) else np.float64, copy=True)))
 
 
 _TIME_KEYS = {"_computation_time", "_computation_times", "computation_time", "computation_times"}
@@ -367,6 +373,7 @@ def _cell(c):
 # ====================================================================== worlds
 
 _BASIS_RAW = {}
+_PRIMARY = {}   # id -> CompositeSystem of the current pool world
 
 
 def basis_raw(name):
@@ -386,10 +393,13 @@ def basis_raw(name):
 class World:
     """brand-new ElementalSystems / CompositeSystems (built lazily) from the recorded basis arrays"""
 
-    def __init__(self, Q):
+    def __init__(self, Q, primary=False):
         self.Q = Q
         self.es = {}
         self.cs = {}
+        self.primary = primary
+        if primary:
+            _PRIMARY.clear()
 
     def esys(self, name):
         e = self.es.get(name)
@@ -397,11 +407,14 @@ class World:
             e = self.es[name] = self.Q.ElementalSystem(name, self.Q.mb.MatrixBasis(basis_raw(name)))
         return e
 
-    def csys(self, names):
+    def csys(self, names, cid=0):
         names = tuple(names)
-        c = self.cs.get(names)
+        key = names if cid == 0 else (names, cid)
+        c = self.cs.get(key)
         if c is None:
-            c = self.cs[names] = self.Q.CompositeSystem([self.esys(n) for n in names])
+            c = self.cs[key] = self.Q.CompositeSystem([self.esys(n) for n in names])
+            if self.primary and cid == 0:
+                _PRIMARY[id(c)] = c
         return c
 
 
@@ -473,6 +486,32 @@ class Mon:
         self.events = 0     # mutation events reported by hooks (innermost function first)
         self.budget = HOOK_BUDGET
         self.skipped = 0
+        self.cs_cache = {}
+
+    def begin_step(self):
+        self.budget = HOOK_BUDGET
+        self.cs_cache = {}
+
+    def cs_digest(self, cs, cache=None):
+        cache = self.cs_cache if cache is None else cache
+        e = cache.get(id(cs))
+        if e is None or e[0] is not cs:
+            e = cache[id(cs)] = (cs, digest(cs))
+        return e[1]
+
+    def hdigest(self, v, cache=None):
+        """monitor.digest, except that the digest of a CompositeSystem (two thirds of the cost of every object digest) is
+        taken once per step and instance inside the hooks; the sweep at the end of every step digests the composite
+        systems afresh, so a modified basis is still found (attributed to the step, not to the innermost function)"""
+        tn = type(v).__name__
+        if tn == "CompositeSystem":
+            return self.cs_digest(v, cache)
+        d = getattr(v, "__dict__", None)
+        if d is not None and "_composite_system" in d:
+            dd = dict(d)
+            cs = dd.pop("_composite_system")
+            return digest((tn, dd, self.cs_digest(cs, cache)))
+        return digest(v)
 
 
 # arguments that are documented to be (re)configured by the call: not operands in the sense of the property
@@ -521,7 +560,7 @@ MODULE_FUNCS = {
               "convert_list_by_permutation_matrix", "truncate_imaginary_part", "truncate_computational_fluctuation",
               "calc_se", "calc_mse_prob_dists", "calc_left_inv", "calc_direct_sum", "calc_conjugate", "flatten"],
 }
-CSYS_METHODS = ["basis", "comp_basis", "get_basis", "basis_basisconjugate"] + CACHES + ["delete_" + c for c in CACHES]
+CSYS_METHODS = ["basis_basisconjugate"] + CACHES + ["delete_" + c for c in CACHES]
 QT_METHODS = ["calc_matA", "calc_vecB", "calc_prob_dists", "calc_prob_dist", "generate_empty_estimation_obj_with_setting_info",
               "convert_var_to_qoperation", "num_outcomes", "is_fullrank_matA"]
 MD_METHODS = ["marginalize", "conditionalize", "execute_random_sampling", "__getitem__"]
@@ -557,14 +596,14 @@ def install_hooks(ctx, Q):
             mon.budget -= 1
             names = _argnames(orig, len(args), kw)
             vals = list(args) + [kw[k] for k in sorted(kw)]
-            return mon.events, names, [None if n in exempt else digest(v) for n, v in zip(names, vals)]
+            return mon.events, names, [None if n in exempt else mon.hdigest(v) for n, v in zip(names, vals)]
 
         def check(snap, args, kw):
             if snap is None:
                 return
             ev0, names, before = snap
             vals = list(args) + [kw[k] for k in sorted(kw)]
-            bad = [n for n, v, d in zip(names, vals, before) if d is not None and digest(v) != d]
+            bad = [n for n, v, d in zip(names, vals, before) if d is not None and mon.hdigest(v) != d]
             if not bad:
                 ctx.truth("purity:hook", True)
                 return
@@ -649,10 +688,11 @@ class Member:
 class Op:
     """one step: fn(objs, world) -> value; everything random is fixed at generation time"""
 
-    def __init__(self, cls, label, operands, fn, params=(), on_result=None, roles=None):
+    def __init__(self, cls, label, operands, fn, params=(), on_result=None, roles=None, twin=True):
         self.cls, self.label, self.operands, self.fn, self.params = cls, label, list(operands), fn, params
         self.on_result = on_result
         self.roles = roles
+        self.twin = twin
 
 
 def md_spec(md):
@@ -699,7 +739,7 @@ MAXPOOL = 26
 class History:
     def __init__(self, ctx, Q, hs, mon, rng, flavour, steps):
         self.ctx, self.Q, self.hs, self.mon, self.rng, self.flavour, self.steps = ctx, Q, hs, mon, rng, flavour, steps
-        self.world = World(Q)
+        self.world = World(Q, primary=True)
         self.keys = FLAVOURS[flavour]
         self.members = {}
         self.next_id = 0
@@ -726,10 +766,11 @@ class History:
             self.dig.pop(("m", v.id), None)
         return m
 
-    def member_digest(self, m):
+    def member_digest(self, m, cache=None):
+        cache = {} if cache is None else cache
         if m.kind == "closure":
-            return digest(m.meta["host"])
-        return digest(m.obj)
+            return self.mon.hdigest(m.meta["host"], cache)
+        return self.mon.hdigest(m.obj, cache)
 
     def pick(self, kinds, pred=None):
         c = [m for m in self.members.values() if m.kind in kinds and (pred is None or pred(m))]
@@ -765,11 +806,12 @@ class History:
     # --------------------------------------------------------------- purity
     def full_digest(self):
         out = {}
+        cache = {}   # composite systems are digested afresh in every sweep, once per instance
         for m in self.members.values():
-            out[("m", m.id)] = self.member_digest(m)
+            out[("m", m.id)] = self.member_digest(m, cache)
         for key in self.keys:
             if CSYS[key] in self.world.cs:
-                out[("c", key)] = digest(self.world.cs[CSYS[key]])
+                out[("c", key)] = self.mon.cs_digest(self.world.cs[CSYS[key]], cache)
         for k, d in self.datasets.items():
             out[("d",) + k] = digest(d)
         return out
@@ -808,7 +850,14 @@ class History:
                     ctx.truth("purity:operands", False, key=f"mutates-operand:{label}:{role}")
             else:
                 ctx.truth("purity:operands", True)
-        others = [k for k in changed if k not in opkeys]
+        opobjs = [self.members[i].obj for i in operand_ids if i in self.members]
+        opobjs += [self.members[i].meta.get("host") for i in operand_ids if i in self.members]
+
+        def alias_of_operand(k):   # another pool entry for the very same Python object (closure <-> its host)
+            x = self.members.get(k[1]) if k[0] == "m" else None
+            return x is not None and any(o is not None and (x.obj is o or x.meta.get("host") is o) for o in opobjs)
+
+        others = [k for k in changed if k not in opkeys and not alias_of_operand(k)]
         if not others:
             ctx.truth("purity:pool", True)
         for k in others:
@@ -879,12 +928,15 @@ class History:
         """execute one generic step on the pool and on a fresh twin"""
         ctx, Q = self.ctx, self.Q
         cls = cls or op.cls
+        if any(i not in self.members for i in op.operands):
+            ctx.count("planned-step-dropped:operand-left-the-pool")
+            return False, None
         mems = [self.members[i] for i in op.operands]
         with self.hs.paused():
             specs = [self.spec_of(m) for m in mems]
         argdig = [self.dig.get(("m", m.id)) for m in mems]
         ev0 = self.mon.events
-        self.mon.budget = HOOK_BUDGET
+        self.mon.begin_step()
         with atol_window(Q, atol), quiet():
             ok, val = ctx.attempt(op.fn, [m.obj for m in mems], self.world)
         with self.hs.paused():
@@ -893,9 +945,12 @@ class History:
         self.note_class(cls)
         # twin
         tw = World(Q)
-        self.mon.budget = HOOK_BUDGET
-        okb, targs = ctx.attempt(lambda: [self.build(s, tw) for s in specs])
-        if not okb:
+        self.mon.begin_step()
+        okb, targs = ctx.attempt(lambda: [self.build(s, tw) for s in specs]) if op.twin else (True, None)
+        if not op.twin:
+            # nothing to compare (deleting the cache of a brand-new composite system); purity and memo still judged
+            ctx.truth("twin:" + cls, (ok and val is None), key=f"twin-differs:{op.label}:returns-or-raises")
+        elif not okb:
             ctx.count("twin-build-failed:" + type(targs).__name__)
             ctx.skip("twin:" + cls)
         else:
@@ -1222,7 +1277,7 @@ def cache_key(H, cheap_only=False):
 
 def op_cache_delete(key, name):
     return Op("cache", f"cache-delete:{name}", [], lambda o, w: getattr(w.csys(CSYS[key]), "delete_" + name)(),
-              params=(key, name))
+              params=(key, name), twin=False)
 
 
 def op_cache_get(key, name):
@@ -1257,8 +1312,18 @@ def g_dist(H):
     return Op("dist", "MultinomialDistribution.__getitem__", [m.id], lambda o, w: o[0][idx], params=(idx,))
 
 
+def g_sensitive_query(H):
+    """verdict with the global tolerance (no explicit atol) on an object whose violation lies between the tolerances"""
+    rng = H.rng
+    m = H.pick(QTYPES, lambda x: x.meta.get("sensitive"))
+    if m is None:
+        return g_query(H)
+    name = str(rng.choice([n for n in QUERY[m.kind] if n != "calc_eigenvalues"]))
+    return Op("query", f"{m.kind}.{name}", [m.id], lambda o, w: getattr(o[0], name)(), params=(name, ()))
+
+
 def g_atol_inner(H):
-    g = [g_query, g_query, g_proj, g_compose, g_convert][int(H.rng.integers(5))]
+    g = [g_sensitive_query, g_sensitive_query, g_sensitive_query, g_query, g_proj, g_compose, g_convert][int(H.rng.integers(7))]
     return g(H)
 
 
@@ -1440,7 +1505,7 @@ def run_estimate(H, cfg, seq=False):
     reused = (cfg["loss"] in H.loss_used) or prev is not None
     label = f"{'calc_estimate_sequence' if seq else 'calc_estimate'}:{type(qt).__name__}:{lcls.__name__}:{acls.__name__}"
     ev0 = H.mon.events
-    H.mon.budget = HOOK_BUDGET
+    H.mon.begin_step()
     conf_label = f"{lcls.__name__}.set_from_standard_qtomography_option_data"
     conf0 = H.hs.counts.get(conf_label, 0)
     with quiet():
@@ -1460,7 +1525,7 @@ def run_estimate(H, cfg, seq=False):
     H.algo_first.setdefault(cfg["algo"], dict(cfg))
     # twin: brand-new tomography, estimator, loss and algorithm (for a sequence: every dataset alone)
     tw = World(Q)
-    H.mon.budget = HOOK_BUDGET
+    H.mon.begin_step()
     okb, qt2 = ctx.attempt(H.build, spec, tw)
     if not okb:
         ctx.count("twin-build-failed:" + type(qt2).__name__)
@@ -1486,13 +1551,14 @@ def run_estimate(H, cfg, seq=False):
         j = min(n_conf, len(data_copies)) - 1
         ks_ = diagnose(H, cfg, loss, algo, prev, qt2, data_copies[j] if j >= 0 else None)
         found.extend(ks_[1:])
-        return ks_[0] if ks_ else f"reuse:{lcls.__name__}+{acls.__name__}:" + default.split(":", 2)[-1]
+        return ks_[0] if ks_ else "reuse:loss+algorithm:result-differs-from-fresh-objects:final-state-of-both-looks-fresh"
 
     H.judge(cls, label, pool, twin, info=info, rekey=rekey)
     for k in found:   # a second stale object in the same call
         ctx.violation(k, info)
     with H.hs.paused():
-        H.memo_check(Op(cls, label, [], None, params=(sorted(cfg.items()), ks)), argdig, None, pool)
+        H.memo_check(Op(cls, "calc_estimate_sequence" if seq else "calc_estimate", [], None,
+                        params=(label, sorted(cfg.items()), ks)), argdig, None, pool)
 
 
 # ====================================================== copies, matrix bases
@@ -1529,7 +1595,7 @@ def run_copy_write(H):
     t, X = m.kind, m.obj
     way = str(rng.choice(["set_zero", "array-write"]))
     idx = int(rng.integers(0, 10**6))
-    H.mon.budget = HOOK_BUDGET
+    H.mon.begin_step()
     ok, C = ctx.attempt(X.copy)
     if not ok:
         ctx.violation(f"copy:{t}:" + ctx.exc_key(C), {})
@@ -1545,6 +1611,12 @@ def run_copy_write(H):
         moved = [k for k, d in new.items() if k in H.dig and H.dig[k] != d]
         if not moved:
             ctx.truth("copy:independent", True)
+        def same_obj(k):   # the original itself, or a pool entry that IS the original (a closure's host)
+            x = H.members.get(k[1]) if k[0] == "m" else None
+            return x is not None and (x.obj is X or x.meta.get("host") is X)
+
+        if any(same_obj(k) for k in moved):
+            moved = [("m", m.id)] + [k for k in moved if not same_obj(k)]
         for k in moved:
             who = "original-moves" if k == ("m", m.id) else "other-moves:" + H.relation(k, [m.id])
             ctx.truth("copy:independent", False, key=f"copy-not-independent:{t}:write-to-copy({way}):{who}")
@@ -1665,10 +1737,16 @@ def init_pool(H):
     rng, Q, W = H.rng, H.Q, H.world
     sig = []
 
+    last = {"eps": 0.0}
+
     def perturb(x):
         # far from physical, or off by an amount that only some tolerances accept
-        eps = float(rng.choice([0.05, 0.05, 1e-5, 1e-8]))
+        eps = last["eps"] = float(rng.choice([0.05, 1e-4, 1e-5, 1e-8]))
         return x + eps * rng.standard_normal(np.shape(x))
+
+    def sens():
+        e, last["eps"] = last["eps"], 0.0
+        return {"sensitive": 0.0 < e < 1e-3}
 
     with H.hs.paused():
         for key in H.keys:
@@ -1681,14 +1759,14 @@ def init_pool(H):
                 v = gen.real_coeffs(B, ref.rand_density(d, rng, None if j == 0 else 1))
                 if j == 1:
                     v = perturb(v)
-                H.add("State", Q.State(c, np.ascontiguousarray(v), **kw()), "base")
+                H.add("State", Q.State(c, np.ascontiguousarray(v), **kw()), "base", meta=sens())
                 sig.append(v)
             for j in range(2 if one else 1):
                 m = int(rng.integers(2, 4))
                 vs = [gen.real_coeffs(B, x) for x in ref.rand_povm(d, m, rng)]
                 if j == 1:
                     vs = [perturb(x) for x in vs]
-                H.add("Povm", Q.Povm(c, [np.ascontiguousarray(x) for x in vs], **kw()), "base")
+                H.add("Povm", Q.Povm(c, [np.ascontiguousarray(x) for x in vs], **kw()), "base", meta=sens())
                 sig.append(vs[0])
             if not one:
                 continue
@@ -1696,13 +1774,13 @@ def init_pool(H):
                 hs_ = gen.hs_real(B, ref.kraus_map(ref.rand_kraus(d, int(rng.integers(1, 3)), rng)))
                 if j == 1:
                     hs_ = perturb(hs_)
-                H.add("Gate", Q.Gate(c, np.ascontiguousarray(hs_), **kw()), "base")
+                H.add("Gate", Q.Gate(c, np.ascontiguousarray(hs_), **kw()), "base", meta=sens())
                 sig.append(hs_)
             for j in range(2 if d == 2 else 1):
                 hss = [gen.hs_real(B, ref.kraus_map(ks)) for ks in ref.rand_instrument(d, 2, rng, [1, int(rng.integers(1, 3))])]
                 if j == 1:
                     hss = [perturb(x) for x in hss]
-                H.add("MProcess", Q.MProcess(c, [np.ascontiguousarray(x) for x in hss], **kw()), "base")
+                H.add("MProcess", Q.MProcess(c, [np.ascontiguousarray(x) for x in hss], **kw()), "base", meta=sens())
         for shape in ((2, 3), (2, 2, 2)):
             ps = rng.dirichlet(np.ones(int(np.prod(shape))))
             ps[0] += ps[1] - 1e-10
@@ -1807,7 +1885,7 @@ def step(H, queue):
         op = g_atol_inner(H)
         if op is None:
             return
-        x = float(rng.choice([1e-10, 1e-6, 1e-3, 1e-2]))
+        x = float(rng.choice([1e-10, 1e-6, 1e-3, 1e-2, 1e-2]))
         H.state_events += 1
         wrapped = Op(op.cls, "atol-window:" + op.label, op.operands, op.fn, params=op.params, on_result=op.on_result,
                      roles=op.roles)
